@@ -153,6 +153,16 @@ func VerifC05Reopen() {
 // the real go-ipfs-log keystore and orbitdb identity provider; key generation
 // and signatures are symbolic stand-ins) are created by the real code.
 func bootFull(w *sysWorld, name string, dir *string) (*orbitDB, *sysPeer) {
+	if dir == nil {
+		return bootFullAt(w, name, nil)
+	}
+	d := vstub.Dir(*dir)
+	return bootFullAt(w, name, &d)
+}
+
+// bootFullAt is bootFull with the directory option given as is (an already
+// resolved path, possibly another spelling of a directory: vstub.DirAlias).
+func bootFullAt(w *sysWorld, name string, dir *string) (*orbitDB, *sysPeer) {
 	p := &sysPeer{w: w, name: name, stores: map[string]Store{}}
 	p.blocks = vstub.NewBlocks(nil)
 	for _, q := range w.peers {
@@ -168,7 +178,7 @@ func bootFull(w *sysWorld, name string, dir *string) (*orbitDB, *sysPeer) {
 	opts := &NewOrbitDBOptions{Cache: cacheleveldown.New(nil), DirectChannelFactory: p.node.DirectFactory(),
 		PubSub: p.node, EventBus: env.Bus, PeerID: p.id}
 	if dir != nil {
-		d := vstub.Dir(*dir)
+		d := *dir
 		opts.Directory = &d
 	}
 	o, err := NewOrbitDB(context.Background(), env.IPFS, opts)
@@ -231,7 +241,16 @@ func VerifC05Identity() {
 			return
 		}
 		vstub.WaitIdle()
-		o2, p2 := bootFull(w, "alice", &dir)
+		var o2 *orbitDB
+		var p2 *sysPeer
+		if vstub.NdChoice("restart-spelling", 2) == 1 {
+			// the same directory designated by ANOTHER string (a symbolic link natively)
+			alias := vstub.DirAlias("/mnt/link-to-alice", dir)
+			o2, p2 = bootFullAt(w, "alice", &alias)
+			vstub.Cover("restarted-through-another-spelling")
+		} else {
+			o2, p2 = bootFull(w, "alice", &dir)
+		}
 		vstub.Assert(o2 != nil, "C05 after Close a new instance starts on the same directory")
 		if o2 == nil {
 			return
